@@ -462,7 +462,8 @@ def main(tier, seed):
         plan = [("static", 2, [1, 2, 3, 4]), ("dyn1", 1, [2, 3, 4]), ("dyn2", 1, [2, 3]),
                 ("kinds0", 2, [1, 2, 3]), ("kinds1", 2, [3]), ("kinds2", 2, [3])]
     else:
-        plan = [("static", 2, [1, 2, 3, 4, 5]), ("dyn1", 1, [2, 3, 4, 5]), ("dyn2", 1, [2, 3, 4]),
+        # N = 5 only for one step with guards symbolic (1024 DAGs x orders x 32 guard valuations)
+        plan = [("static", 2, [1, 2, 3, 4]), ("static", 1, [5]), ("dyn1", 1, [2, 3, 4]), ("dyn2", 1, [2, 3, 4]),
                 ("kinds0", 2, [1, 2, 3, 4]), ("kinds1", 2, [3, 4]), ("kinds2", 2, [3, 4])]
     for mode, nsteps, ns in plan:
         for n in ns:
@@ -488,8 +489,8 @@ def main(tier, seed):
         "one-request harness: guards symbolic as well (a skipped statement must count as visited when it is requested later); two-request harness: all guards true",
     ]
     return run.finish(
-        rule="every DAG on N statements with edges i->j, j<i, per mode (static N<=%d, one request N<=%d, two requests N<=%d); "
+        rule="every DAG on N statements with edges i->j, j<i, per harness (harness, steps, N values): %s; "
              "per DAG all guard valuations x all distinguishable iteration orders x all request sets are explored as solver-decided forks; "
-             "non-trivial = every (DAG, mode) job" % (plan[0][2][-1], plan[1][2][-1], plan[2][2][-1]),
+             "non-trivial = every (DAG, harness) job" % ([(m, st_, ns) for m, st_, ns in plan],),
         explanation="real ExecutionController under symbolic guards/orders/requests; per path one obligation (callback-log oracle)",
         exhaustive=True, classify=classify)
